@@ -34,6 +34,7 @@ pub fn profile() -> Profile {
         extra: 0,
         tiny_patterns: true,
         non_ascii_urls: false,
+        hostname_wildcards: true,
     }
 }
 
@@ -83,13 +84,32 @@ fn order_probe() -> u64 {
 }
 
 pub fn build_bytes(w: &World, mode: u8, tags: &[String]) -> (Vec<u8>, u64) {
+    build_bytes_h(w, mode, tags, 0)
+}
+
+/// `history` selects how the same final tag set is reached: 0 = one use_tags call, 1 = one
+/// enable_tags call per tag, 2 = use_tags of a superset then disable_tags of the rest.
+pub fn build_bytes_h(w: &World, mode: u8, tags: &[String], history: u8) -> (Vec<u8>, u64) {
     let order = order_probe();
     let s = seams::track(|| Sut::build(&w.rules, &[], w.knobs.optimize, w.knobs.debug, mode, false, None));
     let bytes = match s {
         Sut::Engine(mut e) => {
             if !tags.is_empty() {
                 let tv: Vec<&str> = tags.iter().map(|s| s.as_str()).collect();
-                seams::track(|| e.use_tags(&tv));
+                match history {
+                    1 => {
+                        for t in &tv {
+                            seams::track(|| e.enable_tags(&[*t]));
+                        }
+                    }
+                    2 => {
+                        let all: Vec<&str> = w.tags.iter().map(|s| s.as_str()).collect();
+                        let rest: Vec<&str> = all.iter().filter(|t| !tv.contains(t)).cloned().collect();
+                        seams::track(|| e.use_tags(&all));
+                        seams::track(|| e.disable_tags(&rest));
+                    }
+                    _ => seams::track(|| e.use_tags(&tv)),
+                }
             }
             e.serialize_raw().unwrap_or_default()
         }
@@ -250,10 +270,12 @@ pub fn execute(t: &Trace, with_child: bool, passthrough_child: bool) -> C09Out {
     // engine with the same tags enabled is a fixpoint
     let tags: Vec<String> = w.tags.iter().take(2).cloned().collect();
     let mut tb: Option<Vec<u8>> = None;
-    for k in 0..2 {
+    // (the same enabled set reached through different tag histories must give the same bytes: a loaded
+    // engine always rebuilds its tagged list from scratch, so anything else breaks the reload fixpoint)
+    for k in 0..4 {
         let w2 = w.clone();
         let tg = tags.clone();
-        let r = on_thread(Some(kr.next()), kr.next(), k as u8 + 1, move || build_bytes(&w2, k as u8, &tg));
+        let r = on_thread(Some(kr.next()), kr.next(), k as u8 + 1, move || build_bytes_h(&w2, (k % 3) as u8, &tg, if k < 2 { 0 } else { k as u8 - 1 }));
         out.builds += 1;
         match (r, &tb) {
             (None, _) => {
@@ -263,7 +285,7 @@ pub fn execute(t: &Trace, with_child: bool, passthrough_child: bool) -> C09Out {
             (Some((b, _)), None) => tb = Some(b),
             (Some((b, _)), Some(b1)) => {
                 if &b != b1 {
-                    out.violation = Some(viol("byte-identical-builds", "bytes tagged build#1 vs tagged build#0", first_diff(&b, b1), "identical buffers".into()));
+                    out.violation = Some(viol("byte-identical-builds", &format!("bytes tagged build#{} (0,1: use_tags; 2: enable_tags one by one; 3: use_tags superset + disable_tags) vs tagged build#0", k), first_diff(&b, b1), "identical buffers".into()));
                     return out;
                 }
             }
